@@ -91,7 +91,7 @@ func runC17(c *Ctx) {
 	if c.Thorough() {
 		f, p = 3, 2
 	}
-	push := []string{"in/a:i0:0", "in/b:i1:1"}
+	push := []string{"in/a:i0:0", "in/c:redelivered:1:dup", "in/b:i1:1"}
 	// Handle at every phase, optionally replaced later; publishes give the faults something to hit
 	var wls [][]rcReq
 	pubs := func(n int, ph byte) []rcReq {
@@ -120,7 +120,7 @@ func runC17(c *Ctx) {
 			}
 		}
 	}
-	c.Bound("workloads", fmt.Sprintf("%d workloads: Handle before Connect / settled / immediately / during an outage / during the reconnect handshake, optionally replaced by a second handler, with 1-2 QoS 1 publishes; the broker pushes a QoS 0 and a QoS 1 message right after every accepting CONNACK; faults %+v F<=%d; P<=%d", len(wls), faults, f, p))
+	c.Bound("workloads", fmt.Sprintf("%d workloads: Handle before Connect / settled / immediately / during an outage / during the reconnect handshake, optionally replaced by a second handler, with 1-2 QoS 1 publishes; the broker pushes a QoS 0 message, (on later connections) a QoS 1 redelivery with DUP=1 and a QoS 1 message right after every accepting CONNACK; faults %+v F<=%d; P<=%d", len(wls), faults, f, p))
 	var sample *rcRun
 	seen := map[string]bool{}
 	for _, reqs := range wls {
